@@ -10,6 +10,7 @@ state untouched (serializable, resumable) and pairs WorkflowCancelledEvent with
 CommandHalt(WorkflowCancelledByUser); an exit command cancels pending and running workers before
 the exception leaves; cancel_run sends exactly a TickCancelRun; (R4) a run that completes returns
 from inside the loop and nothing is processed afterwards.
+Also (R1) heap discipline: the wake-up list holding the TickTimeout is changed only through heapq.
 Not decided: wall-clock accuracy.
 """
 
@@ -32,6 +33,9 @@ def run(chk) -> None:
     repo = chk.repo
     from ._engine import engine_view
     chk.extra["helpers_inlined"] = engine_view(repo)
+    # the workflow timeout is one entry of the wake-up heap: it fires on time only while [0] is the earliest entry
+    from ._engine import heap_discipline
+    heap_discipline(chk, "C31.R1")
     m = repo.module(CL)
     methods = repo.methods(RUNNER)
     rn = methods["run"]
@@ -173,6 +177,9 @@ def run(chk) -> None:
 
 _H = "packages/llama-index-workflows/src/workflows/handler.py"
 TWINS = [
+    Twin("due wake-up taken with list.pop(0) instead of heapq.heappop", CL_REL, "heapq.heappop(self.scheduled_wakeups)", "self.scheduled_wakeups.pop(0)", "C31.R1"),
+    Twin("first wake-up deleted by index", CL_REL, "            _, _, tick = heapq.heappop(self.scheduled_wakeups)\n", "            _, _, tick = self.scheduled_wakeups[0]\n            del self.scheduled_wakeups[0]\n", "C31.R1"),
+    Twin("benign: heap popped through a local alias", CL_REL, "            _, _, tick = heapq.heappop(self.scheduled_wakeups)\n", "            _heap = self.scheduled_wakeups\n            _, _, tick = heapq.heappop(_heap)\n", None),
     Twin("timeout relative to zero", CL_REL, "            timeout_time = start + self.workflow._timeout", "            timeout_time = self.workflow._timeout", "C31.R2"),
     Twin("timeout only when resuming", CL_REL, "        if start_with_timeout and self.workflow._timeout is not None:", "        if start_with_timeout and self.workflow._timeout is not None and start_event is not None:", "C31.R2"),
     Twin("active steps from queues", CL_REL, "        if len(worker_state.in_progress) > 0\n    ]", "        if len(worker_state.queue) > 0\n    ]", "C31.R2"),
@@ -181,6 +188,6 @@ TWINS = [
     Twin("cancel marks stopped", CL_REL, "    state = init.deepcopy()\n    # Retain running state for resumption.", "    state = init.deepcopy()\n    state.is_running = False\n    # Retain running state for resumption.", "C31.R3"),
     Twin("pending coroutines survive halt", CL_REL, "        for p in self._pending_workers:\n            p.coro.close()\n        self._pending_workers.clear()\n", "", "C31.R3"),
     Twin("wait ignores wakeups", CL_REL, "                result = await self.adapter.wait_for_next_task(\n                    running, pending, timeout\n                )", "                result = await self.adapter.wait_for_next_task(\n                    running, pending, None\n                )", "C31.R1"),
-    Twin("due ticks dropped", CL_REL, "                    for due_tick in self.pop_due_ticks(now):\n                        self.tick_buffer.append(due_tick)", "                    for due_tick in self.pop_due_ticks(now):\n                        pass", "C31.R1"),
+    Twin("due ticks dropped", CL_REL, "                for due_tick in self.pop_due_ticks(now):\n                    self.tick_buffer.append(due_tick)", "                for due_tick in self.pop_due_ticks(now):\n                    pass", "C31.R1"),
     Twin("benign: timeout guard reordered", CL_REL, "        if start_with_timeout and self.workflow._timeout is not None:", "        if self.workflow._timeout is not None and start_with_timeout:", None),
 ]
